@@ -566,6 +566,80 @@ def affine_rule(rep, u):
     return n
 
 
+# ------------------------------------------------------------------ R-DOMAIN: scalars live modulo n
+
+def scalar_domain_rule(rep, u):
+    """a bignum that is about to be used as the scalar of a point multiplication is reduced modulo the group order n,
+    never modulo the field prime p (typing of bignum objects by their next use)"""
+    n = 0
+    mults = {}
+    for nm, f in u.functions.items():
+        if "mult" in nm and nm.startswith("ec_point") and f.has_cfg:
+            idx = [i for i, p_ in enumerate(f.params) if u.type(p_["t"])["s"] in ("bn_p", "bn_t *") and p_["n"] not in ("a", "b")]
+            if idx:
+                mults[nm] = idx
+    for fn in u.function_list:
+        if fn.relfile() != ECDSA_H or not fn.has_cfg or fn.name.endswith("self_test"):
+            continue
+        mods = []
+        for pos, root, c, ps in fn.calls():
+            nm = c.get("fn") or ""
+            if nm.startswith("bn_mod_") and c["args"]:
+                which = [key(strip_casts(a)) for a in c["args"] if key(strip_casts(a)) in ("&(curve->p)", "&(curve->n)")]
+                if which:
+                    mods.append((pos, c, key(strip_casts(c["args"][0])), which[0]))
+        for pos, root, c, ps in fn.calls(set(mults)):
+            for i in mults[c["fn"]]:
+                if i >= len(c["args"]):
+                    continue
+                S = key(strip_casts(c["args"][i]))
+                for mpos, mc, obj, modulus in mods:
+                    if obj != S:
+                        continue
+                    # the reduction reaches the multiplication without the object being re-assigned in between
+                    if not _reaches_without_kill(fn, mpos, pos, S):
+                        continue
+                    n += 1
+                    rep.functions.add(fn.name)
+                    inst = "scalar:%s@%s#%d" % (S, c["fn"], _ordinal(fn, mc))
+                    desc = "%s is reduced modulo the group order before it is used as the scalar of %s" % (S, c["fn"])
+                    if modulus == "&(curve->n)":
+                        rep.proved("R-DOMAIN", fn, inst, desc, "%s(..., &curve->n, ...) at line %s" % (mc["fn"], mc.get("ln")), mc.get("ln"))
+                    else:
+                        rep.violated("R-DOMAIN", fn, inst, desc, "%s reduces it modulo the field prime p at line %s: scalars in [p, n) are "
+                                     "changed (curves with n > p)" % (mc["fn"], mc.get("ln")), mc.get("ln"))
+    return n
+
+
+def _reaches_without_kill(fn, a, b, obj):
+    """some path from just after position a to position b on which obj is not the destination of bn_assign/bn_import*"""
+    seen = set()
+    work = [(a[0], a[1] + 1)]
+    while work:
+        bid, i = work.pop()
+        if (bid, i) in seen:
+            continue
+        seen.add((bid, i))
+        elems = fn.blocks[bid].elems
+        killed = False
+        j = i
+        while j < len(elems):
+            if (bid, j) == b:
+                return True
+            for x, _ in walk(elems[j]):
+                if x.get("k") == "call" and (x.get("fn") or "").startswith(("bn_assign", "bn_import")) and x["args"] and \
+                        key(strip_casts(x["args"][0])) == obj:
+                    killed = True
+            if killed:
+                break
+            j += 1
+        if killed:
+            continue
+        for s_ in fn.blocks[bid].rsucc():
+            work.append((s_, 0))
+    return False
+
+
 # ------------------------------------------------------------------ R-SIB
 
 def _norm(s, order):
@@ -630,7 +704,7 @@ def units(tier):
 def run(rep, tier):
     us = driver.load_units(units(tier))
     rep.use_units(us)
-    nb = nc = nv = np_ = ns = nspec = 0
+    nb = nc = nv = np_ = ns = nspec = ndom = 0
     for lab, u in us.items():
         fns = byte_fns(u)
         rep.floor("byte-string entry points in %s" % lab, len(fns), 16)
@@ -639,6 +713,7 @@ def run(rep, tier):
         for order in ("be", "le"):
             nc += codec_rule(rep, u, order)
         np_ += parity_rule(rep, u)
+        ndom += scalar_domain_rule(rep, u)
         nspec += affine_rule(rep, u)
         if lab != "ecdsa:test":      # the test configuration defines EC_DISABLE_PUB_KEY_CHK
             nv += validation_rule(rep, u)
@@ -651,6 +726,7 @@ def run(rep, tier):
     rep.floor("codec layouts and importer arms evaluated", nc, 200)
     rep.floor("validation obligations", nv, 10)
     rep.floor("parity cases", np_, 8)
+    rep.floor("scalar reductions before a point multiplication", ndom, 2)
     rep.floor("curve-equation obligations", nspec, 8)
     rep.floor("sibling pairs", ns, 16)
     return driver.finish(
